@@ -331,6 +331,25 @@ func flateTrace(w *wsflate.Writer, dst *bytes.Buffer, msgs [][]byte) []string {
 	return out
 }
 
+// flateTraceEnd is flateTrace with a chosen way of ending the message:
+// 0 Flush, 1 Close, 2 Flush then Close.
+func flateTraceEnd(w *wsflate.Writer, dst *bytes.Buffer, msgs [][]byte, end int) []string {
+	var out []string
+	for _, m := range msgs {
+		n, err := w.Write(m)
+		out = append(out, fmt.Sprintf("Write(%d) -> %d %v", len(m), n, err))
+	}
+	if end != 1 {
+		err := w.Flush()
+		out = append(out, fmt.Sprintf("Flush -> %v dst=%x", err, dst.Bytes()))
+	}
+	if end != 0 {
+		err := w.Close()
+		out = append(out, fmt.Sprintf("Close -> %v dst=%x err=%v", err, dst.Bytes(), w.Err()))
+	}
+	return out
+}
+
 func subFlateWriter() mon.Sub {
 	return mon.Sub{
 		Name: "flate-writer-reset", Required: true,
@@ -349,7 +368,7 @@ func subFlateWriter() mon.Sub {
 				}
 				return hideReset{f}
 			}
-			hkind := c.I / 2 % 5
+			hkind := c.I / 2 % 7
 			var a *wsflate.Writer
 			hdesc := ""
 			switch hkind {
@@ -378,17 +397,54 @@ func subFlateWriter() mon.Sub {
 			case 4:
 				a = wsflate.NewWriter(io.Discard, ctor)
 				hdesc = "nothing"
+			case 5, 6: // a random history of 1..6 operations, including messages without any Write (empty messages) and Resets in between
+				rec := xport.NewRec()
+				if hkind == 6 {
+					rec.FailAt, rec.Sticky = c.Rng.Intn(3), true
+				}
+				a = wsflate.NewWriter(rec, ctor)
+				for k, n := 0, 1+c.Rng.Intn(6); k < n; k++ {
+					switch c.Rng.Intn(5) {
+					case 0:
+						a.Write(bytes.Repeat([]byte("h"), []int{0, 1, 20, 5000, 70000}[c.Rng.Intn(5)]))
+						hdesc += "Write "
+					case 1:
+						a.Flush()
+						hdesc += "Flush "
+					case 2:
+						a.Close()
+						hdesc += "Close "
+					case 3:
+						a.Reset(rec)
+						hdesc += "Reset "
+					case 4:
+						a.Write(nil)
+						hdesc += "Write(nil) "
+					}
+				}
+				hdesc = fmt.Sprintf("ops: %s(destination failing: %v)", hdesc, hkind == 6)
 			}
 			var adst, bdst bytes.Buffer
 			a.Reset(&adst)
 			b := wsflate.NewWriter(&bdst, ctor)
 			c.Count(1)
 			var msgs [][]byte
-			for i, n := 0, 1+c.Rng.Intn(4); i < n; i++ {
+			for i, n := 0, c.Rng.Intn(5); i < n; i++ { // n = 0: an empty message
 				m := bytes.Repeat([]byte{byte('a' + c.Rng.Intn(26))}, c.Rng.Intn(3000))
 				msgs = append(msgs, m)
 			}
-			ta, tb := flateTrace(a, &adst, msgs), flateTrace(b, &bdst, msgs)
+			end := c.Rng.Intn(3)
+			ta, tb := flateTraceEnd(a, &adst, msgs, end), flateTraceEnd(b, &bdst, msgs, end)
+			if i, x, y := diffTraces(ta, tb); i < 0 && c.Rng.Intn(2) == 0 {
+				// and a second message after another Reset on both
+				adst.Reset()
+				bdst.Reset()
+				a.Reset(&adst)
+				b.Reset(&bdst)
+				m2 := [][]byte{bytes.Repeat([]byte("second"), c.Rng.Intn(200))}
+				ta, tb = append(ta, flateTraceEnd(a, &adst, m2, 0)...), append(tb, flateTraceEnd(b, &bdst, m2, 0)...)
+				_, _ = x, y
+			}
 			if i, x, y := diffTraces(ta, tb); i >= 0 {
 				c.Fail(fmt.Sprintf("flate-writer/reset/history-%d", hkind), "a compression writer after Reset differs from a new one",
 					map[string]interface{}{"history": hdesc, "resettable_compressor": resettable, "reused": trunc(x), "fresh": trunc(y), "step": i})
@@ -439,7 +495,7 @@ func subFlateReader() mon.Sub {
 				return noReset{f}
 			}
 			hist := compress(bytes.Repeat([]byte("history data "), 1+c.Rng.Intn(300)))
-			hkind := c.I / 2 % 5
+			hkind := c.I / 2 % 6
 			hdesc := ""
 			var a *wsflate.Reader
 			switch hkind {
@@ -467,6 +523,35 @@ func subFlateReader() mon.Sub {
 			case 4:
 				a = wsflate.NewReader(strings.NewReader(""), ctor)
 				hdesc = "nothing"
+			case 5: // random history: 1..3 sources of either kind (byte reader / plain), each read 0 / 1 / some / all bytes, closed or not, the compressed EMPTY message among them
+				for k, n := 0, 1+c.Rng.Intn(3); k < n; k++ {
+					data := hist
+					if c.Rng.Intn(3) == 0 {
+						data = compress(nil)
+					}
+					var hsrc io.Reader = xport.NewChunker(data, xport.Plans(c.Rng.Int63(), nil)[c.Rng.Intn(11)])
+					kind := "plain"
+					if c.Rng.Intn(2) == 0 {
+						hsrc = xport.ByteChunker{Chunker: hsrc.(*xport.Chunker)}
+						kind = "byte"
+					}
+					if a == nil {
+						a = wsflate.NewReader(hsrc, ctor)
+					} else {
+						a.Reset(hsrc)
+					}
+					rd := []int{0, 1, 7, -1}[c.Rng.Intn(4)]
+					if rd < 0 {
+						io.Copy(io.Discard, a)
+					} else if rd > 0 {
+						io.ReadFull(a, make([]byte, rd))
+					}
+					cl := c.Rng.Intn(2) == 0
+					if cl {
+						a.Close()
+					}
+					hdesc += fmt.Sprintf("[%s source of %d bytes, read %d, closed %v] ", kind, len(data), rd, cl)
+				}
 			}
 			msg := bytes.Repeat([]byte{byte('A' + c.Rng.Intn(26)), ' '}, c.Rng.Intn(4000))
 			comp := compress(msg)
